@@ -26,6 +26,7 @@ EXPLANATION = (
 )
 EXPLANATION += ' R17.12: pending-write state is assigned after the previous write was closed.'
 EXPLANATION += ' R17.11: the right-hand side of an augmented write is parenthesised in the setter call.'
+EXPLANATION += " R17.13: in the anchored modules and the shared text utilities no source text is cut with str.splitlines() (it breaks at form feed, \x1c-\x1e, \x85, U+2028/9; rope's and the ast's line numbers count \n only)."
 ASSUMPTIONS = ["R17.1 and R17.4 share their rule bodies with C04 and C03"]
 
 
@@ -279,6 +280,9 @@ def check(ctx, res) -> None:
     _check_body(ctx, res)
     _augmented_write_grouping_rule(ctx, res)
     _pending_write_state_rule(ctx, res)
+    from .common import line_model_rule as _lm
+
+    _lm(ctx, res, "R17.13", ('rope.refactor.encapsulate_field', 'rope.refactor.introduce_factory', 'rope.refactor.method_object', 'rope.refactor.localtofield', 'rope.refactor.usefunction', 'rope.refactor.restructure'))
 
 
 def _pending_write_state_rule(ctx, res) -> None:
